@@ -421,6 +421,15 @@ func (W) Exec(p *world.Plan, env *world.Env) {
 							env.FailAt(at, "mem/data-mismatch", "after WriteTo the target range does not hold the data")
 						}
 						s.clearInflight(w, true)
+						if faults {
+							// a write that REPORTS success ends with its pages read+execute again on every path
+							// (also the fallback path, also when an earlier failed write had left them writable)
+							for a := (s.base + uintptr(abs)) &^ uintptr(pageSize-1); a < s.base+uintptr(abs+ln); a += uintptr(pageSize) {
+								if pm := simenv.PermsAt(a); len(pm) >= 3 && (pm[1] == 'w' || pm[2] != 'x') {
+									env.FailAt(at, "pages/writable-after-success", "WriteTo returned without error but page %#x of the written range is mapped %s", a, pm)
+								}
+							}
+						}
 					}
 					// own segment exactly as modelled, nothing outside the arena touched
 					if bad := s.compare(segLo, segLo+seg); bad >= 0 {
